@@ -148,6 +148,35 @@ def registry():
                         'index depends on the truncation degree and guards on it are in a justified table (C12.D). Hence output order d '
                         'depends on input orders <= d only. Declared unanalysed (printed): _eigh, svd, eig.',
             assumptions=['affine index domain with Fourier-Motzkin style bound elimination; violations are reported only with a concrete witness valuation'])
+    if S is not None and G is not None:
+        reg['C10'] = dict(
+            rules=[S.rule_cmp, S.rule_shape, lambda ctx: S.rule_base(ctx, None, 'C10.base'), S.rule_dispatch],
+            explanation='Static decision of the NumPy-agreement clauses that are visible in the shape of the code: comparison methods return '
+                        'numpy.all(<own operator>(zeroth coefficients)) (C10.cmp); shape/size/ndim/len read one coefficient slice '
+                        '(C10.shape); every kernel computes its zeroth coefficient with the NumPy/SciPy function it is named after '
+                        '(C10.base); generated dispatchers forward (*args, **kwargs) unchanged to the class method or to an existing '
+                        'NumPy/SciPy function of the same name, hand-written dispatchers call the function of their own name and forward '
+                        'every parameter (C10.dispatch). NOT decided: equality of values/shapes with NumPy for all arguments.',
+            assumptions=['the installed numpy/scipy namespaces are consulted for the existence of fallback functions (no algopy code is run)'])
+        reg['C13'] = dict(
+            rules=[S.rule_index, S.rule_view, S.rule_map, G.rule_grade('C13'), S.rule_sym, S.rule_alloc],
+            explanation='Static decision of the slice-wise/view clauses: the index prefixes of __getitem__/__setitem__ (C13.index); view operations '
+                        'return storage of their argument with no copy on the path, value operations return fresh data (C13.view, E1 alias '
+                        'analysis); trace/tril/triu/tile/fft/ifft apply the NumPy function of their name to slice [d,p] in full d,p loops and '
+                        'forward every parameter, sum shifts axes by 2 / data.ndim (C13.map + E2 grading of the map loops); the symvec family '
+                        'agrees on the entry<->position enumeration (C13.sym, enumeration of the loop-nest index structure); zeros/ones '
+                        'allocate (D,P)+shape from the dtype object (C13.alloc). NOT decided: NumPy\'s own indexing semantics, values.',
+            assumptions=['library summary tables of verif/effects.py'])
+    if P is not None:
+        reg['C11'] = dict(
+            rules=[P.rule_paxis, P.rule_batch, P.rule_p2, P.rule_p3, P.rule_p4],
+            explanation='Static information-flow discipline of the direction axis: in every loop over directions the axis-1 subscript of a '
+                        '(D,P,...) array is the loop variable and the loop covers range(P); constant direction indices only read shapes (P1); '
+                        'element-wise kernels never subscript axis 1 (batch); work arrays allocated outside a p-loop are killed before their '
+                        'first read in each iteration (P2); names assigned inside a p-loop are not read after it (P3: rank/structure decisions '
+                        'of one direction applied to all); no reduction runs over the direction axis except documented ones (P4). '
+                        'NOT decided: rounding differences of vectorised kernels.',
+            assumptions=['array layout convention (D,P,...) for *_data parameters and .data attributes'])
     return reg
 
 
